@@ -11,7 +11,8 @@ EXPLANATION = (
     "three transfer arms perform the same effect set {write to the sink, incr_sent_bytes} and each write is dominated by the non-zero/Some "
     "edge of its own read; (3) copy_bidi returns Ok only after both completion slots are Some, and the error of either half returns; "
     "(4) no API that lets a file descriptor escape its owner is called; (5) in process_request the Ok edge of copy_bidi reaches "
-    "set_state(Terminated) and on_finish, the Err edge on_error. Does not decide FIN/RST timing or promptness.")
+    "set_state(Terminated) and on_finish, the Err edge on_error. Does not decide FIN/RST timing or promptness."
+    " ERR2: every Ok(n) returned by the splice helper carries the splice system call's own count (never a constant standing for an error).")
 RULE_TEXT = "instances = sink variants, transfer arms, exit edges, escape APIs"
 TRUSTED = ["tokio shutdown()/AsyncFd semantics", "dropping a socket closes it"]
 NOT_DECIDED = ["FIN vs RST timing, promptness", "TLS close_notify"]
